@@ -53,6 +53,11 @@ public:
    status_t Find(const String & path, Queue<DataNodeRef> & out) const {return FindMatchingNodes(path, ConstQueryFilterRef(), out);}
    uint32 OutQueueLen() {AbstractMessageIOGateway * g = GetGateway()(); return g ? g->GetOutgoingMessageQueue().GetNumItems() : 0;}
    const Message & Params() const {return GetParametersConst();}
+   // the server-side subtree calls (protected in StorageReflectSession), for the ops `clone` / `save` / `restore`
+   status_t Clone(const DataNode & n, const String & dest, SetDataNodeFlags f) {return CloneDataNodeSubtree(n, dest, f);}
+   status_t Save(Message & m, const DataNode * n, uint32 maxDepth) const {return SaveNodeTreeToMessage(m, n, GetEmptyString(), true, maxDepth);}
+   status_t Restore(const Message & m, const String & path, SetDataNodeFlags f, uint32 maxDepth) {return RestoreNodeTreeFromMessage(m, path, true, f, maxDepth);}
+   void Push() {PushSubscriptionMessages();}
 private:
    String _host;
    const bool * _blocked;
@@ -87,6 +92,7 @@ struct SrvEngine : public Engine
    ReflectServer * server;
    Client cl[NSLOTS];
    bool inBatch[NSLOTS]; MessageRef batch[NSLOTS];
+   MessageRef savedTree;             // the Message of the last `save` op of the case (SaveNodeTreeToMessage), used by `restore`
 
    SrvEngine() : server(NULL) {for (int i=0; i<NSLOTS; i++) inBatch[i] = false;}
 
@@ -114,6 +120,7 @@ struct SrvEngine : public Engine
       {
          delete cl[i].gw; cl[i] = Client(); inBatch[i] = false; batch[i].Reset();
       }
+      savedTree.Reset();
       if (server) {server->Cleanup(); delete server; server = NULL;}
    }
 
@@ -187,6 +194,17 @@ struct SrvEngine : public Engine
          }
          c.inbox.push_back(d + "]");
       }
+      else if (m.what == PR_RESULT_DATATREES)
+      {
+         // the reply to PR_COMMAND_GETDATATREES: one SaveNodeTreeToMessage Message per matching node, under the node's path
+         std::string d = "TREES[";
+         for (MessageFieldNameIterator it = m.GetFieldNameIterator(B_MESSAGE_TYPE); it.HasData(); it++)
+         {
+            ConstMessageRef sub;
+            for (int32 k=0; m.FindMessage(it.GetFieldName(), k, sub).IsOK(); k++) d += hexOf(S(it.GetFieldName())) + "=" + (sub() ? savedDump(*sub()) : std::string("null")) + " ";
+         }
+         c.inbox.push_back(d + "]");
+      }
       else if (m.what == PR_RESULT_PONG) c.inbox.push_back("PONG " + u64s((uint32)m.GetInt32("tag")));
       else if (m.what == PR_RESULT_PARAMETERS)
       {
@@ -212,7 +230,6 @@ struct SrvEngine : public Engine
 
    // C13 is stated for a client that started from the server's snapshot of that index: a foreign node, no content filters
    bool idxPremise(const Client & c, const std::string & path) const {(void) path; return (!c.usedFilter)&&(!c.tainted);}
-
    void sendMsg(int i, const MessageRef & m)
    {
       if (inBatch[i]) {(void) batch[i]()->AddMessage(PR_NAME_KEYS, m); return;}
@@ -256,6 +273,67 @@ struct SrvEngine : public Engine
       size_t a = path.find('/', 1); if (a == std::string::npos) return "";
       size_t b = path.find('/', a+1);
       return path.substr(a+1, (b == std::string::npos) ? std::string::npos : b-a-1);
+   }
+
+   // "/a/b/c" (absolute, no empty clause) -> names; the node is then found by exact child lookups from the global root
+   static bool absNames(const std::string & p, std::vector<std::string> & out)
+   {
+      out.clear();
+      if ((p.size() < 2)||(p[0] != '/')) return false;
+      size_t a = 1;
+      while(true)
+      {
+         const size_t b = p.find('/', a);
+         const std::string cl = p.substr(a, (b == std::string::npos) ? std::string::npos : b-a);
+         if (cl.empty()) return false;
+         out.push_back(cl);
+         if (b == std::string::npos) break;
+         a = b+1;
+      }
+      return true;
+   }
+   DataNode * nodeAt(const std::vector<std::string> & names)
+   {
+      DataNode * n = root();
+      for (size_t k=0; (n)&&(k<names.size()); k++) {DataNodeRef ch; n = (n->GetChild(MS(names[k]), ch).IsOK()) ? ch() : NULL;}
+      return n;
+   }
+   // a relative path whose clauses are non-empty alphanumeric names (so that no path consumer reads it as a pattern)
+   static bool relPlain(const std::string & p)
+   {
+      if (p.empty()) return false;
+      bool clauseEmpty = true;
+      for (size_t k=0; k<p.size(); k++)
+      {
+         if (p[k] == '/') {if (clauseEmpty) return false; clauseEmpty = true;}
+         else if (isalnum((unsigned char)p[k])) clauseEmpty = false;
+         else return false;
+      }
+      return !clauseEmpty;
+   }
+   // canonical text of a Message written by SaveNodeTreeToMessage (must equal `savedDump` in Reflector/Clone.lean)
+   static std::string savedDump(const Message & m)
+   {
+      ConstMessageRef data, ix, kids;
+      std::string d = "{";
+      d += (m.FindMessage(PR_NAME_NODEDATA, data).IsOK()) ? payloadDump(data()) : std::string("nodata");
+      if ((m.FindMessage(PR_NAME_NODEINDEX, ix).IsOK())&&(ix()))
+      {
+         const String * nm; std::string l;
+         for (int32 k=0; ix()->FindString(PR_NAME_KEYS, k, &nm).IsOK(); k++) l += (k?",":"") + hexOf(S(*nm));
+         if (!l.empty()) d += " ix(" + l + ")";
+      }
+      if ((m.FindMessage(PR_NAME_NODECHILDREN, kids).IsOK())&&(kids())&&(kids()->HasNames()))
+      {
+         d += " kids("; bool first = true;
+         for (MessageFieldNameIterator it = kids()->GetFieldNameIterator(B_MESSAGE_TYPE); it.HasData(); it++)
+         {
+            ConstMessageRef sub; if (kids()->FindMessage(it.GetFieldName(), sub).IsError()) continue;
+            d += (first?"":",") + hexOf(S(it.GetFieldName())) + "=" + savedDump(*sub()); first = false;
+         }
+         d += ")";
+      }
+      return d + "}";
    }
 
    // ------------------------------------------------------------------ direct oracles, evaluated at quiescent points
@@ -465,6 +543,49 @@ struct SrvEngine : public Engine
          if (t[2] == "end")   {if (!inBatch[si]) return "bad-op"; inBatch[si] = false; MessageRef b = batch[si]; batch[si].Reset(); return command(si, b);}
          return "bad-op";
       }
+      // ---- server-side subtree calls, made directly on the session (the stock protocol has no command for them), then one
+      //      PushSubscriptionMessages() as after any command.  The usual oracles apply: C06 here, C04/C13/tree digest at `pump`.
+      if ((op == "clone")&&(t.size() == 5))
+      {
+         // clone <slot> <flags 0|8> <source node path, absolute> <dest path relative to the session>: CloneDataNodeSubtree
+         uint64_t flags; std::string src, dest; std::vector<std::string> names;
+         if ((!toU64(t[2], flags))||(!unhex(t[3], src))||(!unhex(t[4], dest))||(!absNames(src, names))||(!relPlain(dest))) return "bad-op";
+         if (((flags != 0)&&(flags != (1u<<SETDATANODE_FLAG_ADDTOINDEX)))||(inBatch[si])) return "bad-op";
+         pumpAll();
+         DataNode * n = nodeAt(names); if (n == NULL) return "nosrc";
+         const std::string before = foreignDigest(si);
+         const status_t r = c.session->Clone(*n, MS(dest), flags ? SetDataNodeFlags(SETDATANODE_FLAG_ADDTOINDEX) : SetDataNodeFlags());
+         c.session->Push();
+         pumpAll();
+         if (before != foreignDigest(si)) oracleFail("C06: a subtree clone by session " + c.sid + " changed state outside its own subtree");
+         return r.IsOK() ? "ok" : "err";
+      }
+      if ((op == "save")&&(t.size() == 4))
+      {
+         // save <slot> <source node path, absolute> <maxDepth>: SaveNodeTreeToMessage into the case's saved-tree Message
+         uint64_t md; std::string src; std::vector<std::string> names;
+         if ((!unhex(t[2], src))||(!absNames(src, names))||(!toU64(t[3], md))||(md > 0xFFFFFFFFull)||(inBatch[si])) return "bad-op";
+         pumpAll();
+         DataNode * n = nodeAt(names); if (n == NULL) return "nosrc";
+         MessageRef m = GetMessageFromPool();
+         if (c.session->Save(*m(), n, (uint32)md).IsError()) return "err";
+         savedTree = m;
+         return "saved " + savedDump(*m());
+      }
+      if ((op == "restore")&&(t.size() == 5))
+      {
+         // restore <slot> <flags 0|8> <dest path relative to the session> <maxDepth>: RestoreNodeTreeFromMessage of the saved tree
+         uint64_t flags, md; std::string dest;
+         if ((!toU64(t[2], flags))||(!unhex(t[3], dest))||(!relPlain(dest))||(!toU64(t[4], md))||(md > 0xFFFFFFFFull)||(savedTree() == NULL)) return "bad-op";
+         if (((flags != 0)&&(flags != (1u<<SETDATANODE_FLAG_ADDTOINDEX)))||(inBatch[si])) return "bad-op";
+         pumpAll();
+         const std::string before = foreignDigest(si);
+         const status_t r = c.session->Restore(*savedTree(), MS(dest), flags ? SetDataNodeFlags(SETDATANODE_FLAG_ADDTOINDEX) : SetDataNodeFlags(), (uint32)md);
+         c.session->Push();
+         pumpAll();
+         if (before != foreignDigest(si)) oracleFail("C06: a subtree restore by session " + c.sid + " changed state outside its own subtree");
+         return r.IsOK() ? "ok" : "err";
+      }
       // ---- commands: build the Message, remember the foreign digest, send, (the pump happens at `pump`)
       MessageRef m;
       if ((op == "set")&&(t.size() >= 5))
@@ -565,6 +686,16 @@ struct SrvEngine : public Engine
          m = GetMessageFromPool(PR_COMMAND_GETDATA);
          for (size_t k=2; k<t.size(); k++) {std::string p; if (!unhex(t[k], p)) return "bad-op"; (void) m()->AddString(PR_NAME_KEYS, MS(p));}
          c.tainted = true;   // an explicit GETDATA puts non-subscribed nodes into the client's data set
+      }
+      else if ((op == "trees")&&(t.size() == 4))
+      {
+         // trees <slot> <maxDepth, 4294967295 = none> <key>: PR_COMMAND_GETDATATREES (SaveNodeTreeToMessage of every matching node, through
+         // the client protocol; the session's own nodes are left out unless it indexes or reflects to itself)
+         uint64_t md; std::string p;
+         if ((!toU64(t[2], md))||((md >= 0x80000000ull)&&(md != MUSCLE_NO_LIMIT))||(!unhex(t[3], p))||(inBatch[si])) return "bad-op";
+         m = GetMessageFromPool(PR_COMMAND_GETDATATREES);
+         (void) m()->AddString(PR_NAME_KEYS, MS(p));
+         if (md != MUSCLE_NO_LIMIT) (void) m()->AddInt32(PR_NAME_MAXDEPTH, (int32)md);
       }
       else if ((op == "ins")&&(t.size() >= 5))
       {
